@@ -95,8 +95,8 @@ DropRet(s, r) ==
   LET rt == s.rets[r]
       s1 == Emit([s EXCEPT !.rets[r].loc = "gone"], [e |-> "retdrop", rid |-> r])
   IN IF rt.kind = "plain" THEN Emit(s1, [e |-> "retcb", rid |-> r, has |-> FALSE, val |-> 0])
-     ELSE IF rt.kind = "to" /\ s.alive
-     THEN [s1 EXCEPT !.deferQ = Append(@, [Clo("retcall", 0, rt.aid, FALSE) EXCEPT !.rid = r])]
+     ELSE IF rt.kind \in {"to", "toprep"} /\ s.alive
+     THEN [s1 EXCEPT !.deferQ = Append(@, [Clo("retcall", 0, rt.aid, rt.kind = "toprep") EXCEPT !.rid = r])]
      ELSE s1
 
 \* the Drop handler of a closure's captures: defers another closure
@@ -211,7 +211,7 @@ Effects(s, cx) ==
   \cup (IF E("kill") /\ HasStakker(cx) THEN {[op |-> "kill", oid |-> o] : o \in TopOwners(s)} ELSE {})
   \cup (IF E("mkret") /\ s.nextRid <= MaxRets
         THEN {[op |-> "mkret", kind |-> "plain", aid |-> 0]}
-             \cup {[op |-> "mkret", kind |-> kd, aid |-> a] : kd \in {"to", "someto"}, a \in ActorsOf(s)}
+             \cup {[op |-> "mkret", kind |-> kd, aid |-> a] : kd \in {"to", "someto", "toprep"}, a \in ActorsOf(s)}
         ELSE {})
   \cup (IF E("ret") THEN {[op |-> "ret", rid |-> r] : r \in TopRets(s)} ELSE {})
   \cup (IF E("retdrop") THEN {[op |-> "retdrop", rid |-> r] : r \in TopRets(s)} ELSE {})
@@ -355,7 +355,7 @@ ApplyEff(s, cx, f) ==
              s1 == Emit([s EXCEPT !.rets[f.rid].loc = "gone"], [e |-> "ret", rid |-> f.rid, val |-> v])
              s2 == IF rt.kind = "plain" THEN Emit(s1, [e |-> "retcb", rid |-> f.rid, has |-> TRUE, val |-> v])
                    ELSE IF s.alive
-                   THEN [s1 EXCEPT !.deferQ = Append(@, [Clo("retcall", 0, rt.aid, FALSE) EXCEPT !.rid = f.rid, !.has = TRUE, !.val = v])]
+                   THEN [s1 EXCEPT !.deferQ = Append(@, [Clo("retcall", 0, rt.aid, rt.kind = "toprep") EXCEPT !.rid = f.rid, !.has = TRUE, !.val = v])]
                    ELSE s1
          IN Op(s2, [op |-> "ret", rid |-> f.rid, val |-> v])
     [] f.op = "retdrop" -> Op(DropRet(s, f.rid), [op |-> "retdrop", rid |-> f.rid])
@@ -503,6 +503,14 @@ ExecClosure(s, c) ==
                  id |-> 0, ops |-> << >>, ret |-> ""] }
          ELSE IF act.inner = "prep"
          THEN { [s |-> [s EXCEPT !.actors[c.aid].prepQ = Append(@, c)], id |-> 0, ops |-> << >>, ret |-> ""] }
+         ELSE { [s |-> s, id |-> 0, ops |-> << >>, ret |-> ""] }
+    [] c.k = "retcall" /\ c.prep ->
+         \* a Ret aimed at a Prep-style function (Ret::to_actor_prep): apply_prep runs it only while
+         \* the packed state says Prep, otherwise it is a no-op (the harness's target stays in Prep)
+         LET act == s.actors[c.aid] IN
+         IF act.bits = "prep"
+         THEN { [s |-> Emit(s, [e |-> "rcall", rid |-> c.rid, aid |-> c.aid, has |-> c.has, val |-> c.val, now |-> T(s.now)]),
+                 id |-> 0, ops |-> << >>, ret |-> ""] }
          ELSE { [s |-> s, id |-> 0, ops |-> << >>, ret |-> ""] }
     [] c.k = "retcall" ->
          LET act == s.actors[c.aid] IN
